@@ -50,6 +50,16 @@ def differs(gen, ref, tol=REL_TOL) -> bool:
     return abs(gen - r) > tol * (1 + abs(r))
 
 
+def refsem_near_ties():
+    from . import refsem
+    return list(refsem.NEAR_TIES)
+
+
+def del_near_ties():
+    from . import refsem
+    del refsem.NEAR_TIES[:]
+
+
 class Prog:
     """Per-program checking context (one worker task)."""
 
@@ -134,26 +144,65 @@ class Prog:
     def _replay_sat(self, label, hyps, gen, ref, model, gen_eval, ref_eval, what):
         tried = []
         models = []
-        rm = self._robust_model(hyps, gen, ref)
+        rm = None if os.environ.get("VT_NO_ROBUST") else self._robust_model(hyps, gen, ref)
         if rm is not None:
             models.append(rm)
         models.append(model)
         for m in models:
             inputs = self.float_inputs(m)
             try:
+                del_near_ties()
                 rv = ref_eval(inputs) if ref_eval else None
+                ties = refsem_near_ties()
+                from . import refsem as _rs0
+                ext = (_rs0.EXTREME[0], _rs0.EXTREME[1])
             except Exception as e:
                 tried.append({"inputs": inputs, "ref_error": repr(e)[:200]})
                 continue
             try:
                 gv = gen_eval(inputs) if gen_eval else None
             except Exception as e:
-                # the emitted code raised at a point where the reference is defined
+                # the emitted code raised at a point where the reference of THIS slot is defined; the function computes
+                # every quantity of the model, so the whole model has to be defined there (the property's premise)
+                rm = getattr(self, "refmodel", None)
+                if rm is not None:
+                    from . import refsem as _rs
+                    from .checks import env_from_inputs
+                    try:
+                        for a in rm.assigns.values():
+                            _rs.numeric(a, env_from_inputs(rm, inputs), rm)
+                    except Exception as e2:
+                        tried.append({"inputs": inputs, "why": f"emitted code raised {e!r}, but the model is not defined everywhere at this point ({e2!r})"[:300]})
+                        continue
                 rec = self._violation(label, "exception-at-witness", f"{what}: emitted code raised {e!r}"[:400],
                                       {"inputs": inputs, "ref": float(rv) if rv is not None else None})
                 return "sat"
             if gv is None or rv is None:
                 tried.append({"inputs": inputs, "why": "no concrete evaluator"})
+                continue
+            if differs(gv, rv) and not ties and (gv != gv or math.isinf(gv)):
+                if ext[0] > 1e150 or ext[1] < 1e-150:
+                    ties = ["overflow-prone: an intermediate value of the reference has magnitude %.3g / %.3g" % (float(ext[0]), float(ext[1]))]
+            if differs(gv, rv) and not ties and ref_eval is not None:
+                # conditioning probe: the reference evaluated in 53-bit arithmetic must agree with its 50-digit value,
+                # otherwise the point is ill-conditioned for doubles (cancellation, a pole, log near 0) and a double
+                # evaluation of ANY correct artefact may be off by more than the tolerance there
+                from . import refsem as _rs
+                try:
+                    _rs.FORCE_BITS[0] = 53
+                    rv53 = ref_eval(inputs)
+                    if rv53 is None or differs(float(rv53), rv, tol=REL_TOL / 100):
+                        ties = ["ill-conditioned: 53-bit reference %r vs %r" % (float(rv53) if rv53 is not None else None, float(rv))]
+                except Exception as e:
+                    ties = [f"ill-conditioned: 53-bit reference evaluation raised {e!r}"[:160]]
+                finally:
+                    _rs.FORCE_BITS[0] = None
+            if differs(gv, rv) and not ties:
+                ties = self._model_conditioning(inputs)
+            if differs(gv, rv) and ties:
+                # the reference itself sits within 1e-9 of a discontinuity (comparison / floor) at this point without
+                # being on it: double rounding may legitimately pick the other side, the point confirms nothing
+                tried.append({"inputs": inputs, "emitted": gv, "reference": float(rv), "near_tie": ties[:3]})
                 continue
             if differs(gv, rv):
                 self._violation(label, "value-mismatch",
@@ -163,6 +212,42 @@ class Prog:
             tried.append({"inputs": inputs, "emitted": gv, "reference": float(rv)})
         self.unreproduced.append({"key": self.key(label), "what": what, "tried": tried[:2]})
         return "unreproduced"
+
+    def _model_conditioning(self, inputs):
+        """Relational obligations compare two really executed artefacts, so the probes above (which watch the
+        reference evaluator of the slot) see nothing.  Here every assignment of the reference model is evaluated
+        at the witness: a near-tie in any comparison / floor, or a 53-bit value that differs from the 50-digit
+        one, marks the point as numerically unreliable for doubles."""
+        rm = getattr(self, "refmodel", None)
+        if rm is None:
+            return []
+        from . import refsem as _rs
+        from .checks import env_from_inputs
+        out = []
+        try:
+            env = env_from_inputs(rm, inputs)
+        except Exception:
+            return []
+        for name, a in rm.assigns.items():
+            try:
+                _rs.FORCE_BITS[0] = None
+                hi = _rs.numeric(a, env, rm)
+                if _rs.NEAR_TIES:
+                    out.append(f"{name}: {_rs.NEAR_TIES[0]}")
+                    break
+                _rs.FORCE_BITS[0] = 53
+                lo = _rs.numeric(a, env, rm)
+                if differs(float(lo), hi, tol=REL_TOL / 100):
+                    out.append(f"{name}: ill-conditioned (53-bit {float(lo)!r} vs {float(hi)!r})")
+                    break
+                if abs(hi) > 1e15:
+                    out.append(f"{name}: magnitude {float(hi):.3g} (rounding of the inputs of a later difference exceeds the tolerance)")
+                    break
+            except Exception:
+                continue
+            finally:
+                _rs.FORCE_BITS[0] = None
+        return out
 
     def holds(self, label, hyps, goal, confirm=None, what=""):
         """Obligation: hyps |= goal (a Bool).  confirm(inputs) -> (bool reproduced, detail)."""
